@@ -1,4 +1,8 @@
+#![allow(dead_code)]
+mod asm;
+mod exec;
 mod explore;
+mod world;
 mod fw;
 mod props;
 
